@@ -1101,7 +1101,8 @@ dns_msg_question_add(dns_hdr_p hdr, size_t msg_size, size_t msgbuf_size,
 	if (sizeof(dns_hdr_t) > msg_size)
 		return (EBADMSG);
 
-	question_size = (msg_size + (2 + name_len) +
+	/* Root name: 1 byte, other: 2 + name_len. */
+	question_size = (msg_size + ((0 == name_len) ? 1 : (2 + name_len)) +
 	    (sizeof(dns_question_t) - sizeof(uint8_t*)));
 	if (msgbuf_size < question_size) {
 		if (NULL != msg_size_ret) {
@@ -1201,8 +1202,9 @@ dns_msg_rr_add(dns_hdr_p hdr, size_t msg_size, size_t msgbuf_size, int compress,
 	if (sizeof(dns_hdr_t) > msg_size)
 		return (EBADMSG);
 
-	rr_size_tm = (msg_size + (2 + name_len) + (sizeof(dns_rr_t) -
-	    (sizeof(uint8_t*) + sizeof(uint8_t))) + data_size);
+	/* Root name: 1 byte, other: 2 + name_len. */
+	rr_size_tm = (msg_size + ((0 == name_len) ? 1 : (2 + name_len)) +
+	    (sizeof(dns_rr_t) - (sizeof(uint8_t*) + sizeof(uint8_t))) + data_size);
 	if (NULL != rr_size) {
 		(*rr_size) = rr_size_tm;
 	}
@@ -1219,6 +1221,9 @@ dns_msg_rr_add(dns_hdr_p hdr, size_t msg_size, size_t msgbuf_size, int compress,
 	    sizeof(uint8_t*));
 	rr_size_tm = (msg_size + labels_sequence_size + (sizeof(dns_rr_t) -
 	    (sizeof(uint8_t*) + sizeof(uint8_t))) + data_size);
+	if (NULL != rr_size) { /* Real size: name may be shorter than estimated. */
+		(*rr_size) = rr_size_tm;
+	}
 	if (msgbuf_size < rr_size_tm) 
 		return (EOVERFLOW);
 
